@@ -26,16 +26,20 @@ Contract == [ sift |-> "SingleSignal", ensemble_sift |-> "SingleSignal", complet
               amplitude_normalise_3d |-> "Columns", frequency_transform_nht_3d |-> "Columns",
               sift_second_layer |-> "Columns", mask_sift_second_layer |-> "Columns",
               \* the cycle routines also accept a Cycles container instead of a cycle vector
-              get_cycle_stat_obj |-> "EqualLen", phase_align_obj |-> "EqualLen", get_control_points_obj |-> "EqualLen" ]
+              get_cycle_stat_obj |-> "EqualLen", phase_align_obj |-> "EqualLen", get_control_points_obj |-> "EqualLen",
+              \* one IterateCycles object used for an augmented-mode call and then for the default call (result of the latter)
+              phase_align_reused_iterator |-> "EqualLen" ]
 EPs == DOMAIN Contract
 Layouts == {"vector", "column", "trailing_ones", "two_columns", "row", "three_d", "mismatch",
-            "strided"}        \* the vector as a non-contiguous view (every second element of a larger buffer)
+            "strided",        \* the vector as a non-contiguous view (every second element of a larger buffer)
+            "mixed", "mixed_rev"}   \* two data arrays in DIFFERENT accepted layouts (column + vector, vector + column)
 \* verdict dictated by the contract; "n/a" = the contract says nothing about this layout (not exercised)
 Expected(c, l) ==
     CASE c = "SingleSignal" -> (IF l \in {"vector", "column", "trailing_ones", "strided"} THEN "accept"
                                 ELSE IF l \in {"two_columns", "row", "three_d"} THEN "reject" ELSE "n/a")
       [] c = "VectorOrColumn" -> (IF l \in {"vector", "column", "strided"} THEN "accept" ELSE "n/a")
-      [] c = "EqualLen" -> (IF l \in {"vector", "column", "strided"} THEN "accept" ELSE IF l = "mismatch" THEN "reject" ELSE "n/a")
+      [] c = "EqualLen" -> (IF l \in {"vector", "column", "strided"} THEN "accept" ELSE IF l = "mismatch" THEN "reject"
+                            ELSE IF l \in {"mixed", "mixed_rev"} THEN "accept" ELSE "n/a")
       [] c = "EqualLenColumns" -> (IF l = "column" THEN "accept" ELSE IF l = "mismatch" THEN "reject" ELSE "n/a")
       [] c = "Columns" -> (IF l = "column" THEN "accept" ELSE "n/a")
 
